@@ -131,11 +131,15 @@ Proof.
   - split; [rewrite in_app_iff; tauto|]. split; intros m [=].
 Qed.
 
-(* ---------- F15: a peer lying only in its checkpoint list ---------- *)
+(* ---------- F15 (repaired): a peer lying only in its checkpoint list ---------- *)
 (* 2001 blocks (tokens 1..2001), filter store at genesis; peer 1 serves the
    true checkpoints [501; 502], peer 2 serves [666; 502]; both serve the same
-   (true) cfheaders for heights 0..1999.  Nobody is banned and no list is
-   returned: the caller retries with the same peers for ever. *)
+   (true) cfheaders for heights 0..1999, whose first 1001 filter hashes chain
+   to 501.  Before the repair nobody was banned and no list was returned (the
+   caller retried with the same peers for ever); now peer 2 is banned because
+   its checkpoint contradicts the headers it serves, and the true list is
+   returned. *)
+Definition f15_H (fh prev : Z) : Z := if fh =? 11000 then 501 else fh.
 Definition f15_view : cview :=
   aview {| abl := List.map Z.of_nat (seq 1 2001); afl := [7] |}.
 Definition f15_msg : cfmsg :=
@@ -148,10 +152,11 @@ Definition f15_env : denv :=
      e_fo := fun _ => {| fo_hash := fun f => f; fo_verify := fun _ => Some 0 |} |}.
 Definition f15_cps : list (Z * list Z) := [(1, [501; 502]); (2, [666; 502])].
 
-Lemma f15_witness :
-  resolve_conflict (fun _ => None) f15_view f15_env f15_raws 0 f15_cps = ([], None, 1) /\
+Lemma f15_fixed_run :
+  resolve_conflict f15_H (fun _ => None) f15_view f15_env f15_raws 0 f15_cps = ([2], Some [501; 502]) /\
+  resolve_conflict f15_H (fun _ => None) f15_view f15_env f15_raws 2 f15_cps = ([2], Some [501; 502]) /\
   fst (get_headers f15_view 0 f15_raws) = [(1, f15_msg); (2, f15_msg)].
-Proof. split; vm_compute; reflexivity. Qed.
+Proof. repeat split; vm_compute; reflexivity. Qed.
 
 (* a run in which the honest peer wins: peer 2 advertises a false filter hash
    at height 3 and serves a filter that omits a script *)
